@@ -108,3 +108,17 @@ package issuelink
 //@ type withIssueLink invariant[C03,C12] safeS(self.IssueURL) && safeS(self.Detail)
 
 //@ type unimplementedError invariant[C03,C12] safeS(self.IssueURL) && safeS(self.Detail)
+
+// C09: in detail mode the issue URL and the detail text are handed to the printer whenever they
+// are set; C19: the hint is the URL referral, or the standard referral text when there is no URL
+//@ method (*withIssueLink).SafeFormatError
+//@   props C09
+//@   requires p != nil
+//@   ensures result == self.cause
+//@   ensures pDetail(p) && self.IssueURL != "" ==> seqContains($pargs, ifaceOf(safeV(ifaceOf(self.IssueURL))))
+//@   ensures pDetail(p) && self.Detail != "" ==> seqContains($pargs, ifaceOf(safeV(ifaceOf(self.Detail))))
+
+//@ method (*withIssueLink).ErrorHint
+//@   props C19
+//@   ensures self.IssueURL != "" ==> result == sprintf1("See: %s", ifaceOf(self.IssueURL))
+//@   ensures self.IssueURL == "" ==> result == stdstrings.IssueReferral
